@@ -199,10 +199,14 @@ theorem copy_view (m : Mech) (T : Tree N V) : (T.copy m).view = T.view := by
     `forward`/`__call__`/the objective read only persisted fields, constructor-determined attributes and caches that
     are valid for the current persisted state.
 This is a fact about attribute *use* in ~150 Python classes, not about the abstract tree; it is the hypothesis
-`hdep` above.  What is proved instead is the finite audit below (every attribute that is *written* outside
-`__init__` is classified, caches are cleared on load and guarded on copy); that reading them is harmless is
-ENUMERATED dynamically by harness/props/c18.py (diff of every non-persisted `__dict__` entry + prediction equality
-over all model families and save points), not proved.
+`hdep` above.  What is proved instead is the finite audit below: every attribute that is *written* outside
+`__init__` is classified, caches are cleared on load and guarded on copy (section 5), `config` attributes are
+written by setters only and settings are not snapshotted during use (5b), and every attribute that any method
+*reads* from `self` is persisted / constructor-determined / audited / code (5c, from the regenerated read table,
+cross-checked against a `__getattribute__` spy on real instances).  The remainder (see
+`persistence_completeness_partial`) is ENUMERATED dynamically by harness/props/c18.py (diff of every non-persisted
+`__dict__` entry + prediction equality over all model families, save points, settings environments and
+argument-sharing pairs), not proved.
 -/
 
 /-! ## 5. The audit of the generated class table -/
@@ -379,6 +383,8 @@ def auditedOverrides : List (Nat × Nat) := [
   (cid_Module, hid__load_from_state_dict),          -- clear caches, then torch
   (cid_Interval, hid__load_from_state_dict),        -- strict=False for the bound buffers (older state dicts)
   (cid_Prior, hid_load_state_dict),                 -- re-seats `_transformed_*` buffers on the base distribution
+  (cid_Prior, hid__load_from_state_dict),           -- the same when loaded through a parent module (fix c28e560): super() first, then re-tie
+  (cid_MultivariateNormalPrior, hid__load_from_state_dict),  -- super() first, then drops torch's lazy properties derived from the old buffers (fix c50236c)
   (cid_Prior, hid___setattr__),                     -- keeps `_transformed_*` buffers and base_dist in sync
   (cid_Kernel, hid___getstate__), (cid_Kernel, hid___setstate__),
   (cid_GridKernel, hid___getstate__),               -- pops the eval cache
@@ -436,15 +442,352 @@ theorem prior_closures_picklable_except_known :
     registerPriorLocalClosures = knownRegisterPriorLocalClosures := by
   decide +kernel
 
+/-! ## 5b. Who writes the mutable attributes; snapshots of global settings (wave 3)
+
+The allow-list classifies attributes; these theorems tie the classification to WHO writes them.  A `config` entry is
+"set by the user through a public setter, never by train / eval / predict": then every write site must be a property
+setter (or `Module.initialize`).  A getter that memoises into the attribute (`self._x = <default>` on first access)
+breaks `config_attrs_written_only_by_setters`; an attribute that keeps a snapshot of a global setting outside
+`__init__` must be the tag of a cache (`settings_snapshots_audited`). -/
+
+/-- public configuration API other than property setters: `Module.initialize(**{name: value})` forwards unknown
+names to `setattr`.  Entries `(class, attribute, method)`. -/
+def configApiWriters : List (Nat × Nat × Nat) := [(cid_Module, aid_STAR, aid_initialize)]
+
+/-- **Every write site of a `config` attribute is a property setter** (or the audited `initialize` API): no getter,
+`forward`, `__call__` or other method assigns it — so it cannot change as a side effect of using the object. -/
+theorem config_attrs_written_only_by_setters :
+    ∀ e ∈ allowList, e.tag = .config → ∀ w ∈ attrWriters, w.1 = e.cls → w.2.1 = e.attr →
+      (w.2.2.2 = wk_setter ∨ (w.1, w.2.1, w.2.2.1) ∈ configApiWriters) := by
+  decide +kernel
+
+/-- `data` attributes (training data, fixed noise, quadrature nodes) are re-assigned only by explicit API
+(`set_train_data`, `_apply`, setters, fantasy / sample loading) — never by `forward`, `__call__` or a property getter. -/
+theorem data_attrs_not_written_by_use :
+    ∀ e ∈ allowList, e.tag = .data → ∀ w ∈ attrWriters, w.1 = e.cls → w.2.1 = e.attr →
+      (w.2.2.2 ≠ wk_getter ∧ w.2.2.1 ≠ aid_forward ∧ w.2.2.1 ≠ aid___call__) := by
+  decide +kernel
+
+/-- Attributes assigned in `__init__` from a global setting (the value in force at CONSTRUCTION is kept for the
+object's life; a fresh model constructed under other settings differs — "constructor arguments are supplied again"
+covers them only if the construction-time settings are supplied again, too).  Entries `(class, attribute, setting)`. -/
+def ctorSettingsSnapshots : List (Nat × Nat × Nat) := [
+  -- the given noise tensor is clamped ONCE to the floor in force at construction
+  (cid_FixedGaussianNoise, aid_noise, sid_min_fixed_noise),
+  -- default number of quadrature nodes when `num_locs` is not given
+  (cid_GaussHermiteQuadrature1D, aid_num_locs, sid_num_gauss_hermite_locs),
+  (cid_GaussHermiteQuadrature1D, aid_locations, sid_num_gauss_hermite_locs),
+  (cid_GaussHermiteQuadrature1D, aid_weights, sid_num_gauss_hermite_locs),
+  -- unlike `_VariationalStrategy.jitter_val` (resolved at every access) LMC freezes the jitter at construction
+  (cid_LMCVariationalStrategy, aid_jitter_val, sid_variational_cholesky_jitter)]
+
+/-- **No attribute keeps a snapshot of a global setting taken while the object is USED**, except the audited tags of
+caches (`ExactGP._strategy_lazily_evaluated`, dropped / rebuilt together with its cache); snapshots taken in
+`__init__` are exactly the audited list above. -/
+theorem settings_snapshots_audited :
+    (∀ s ∈ settingsStores, s.2.2.2 = false →
+      (allowList.any fun e => e.cls == s.1 && e.attr == s.2.1 &&
+        (decide (e.tag = .cacheTag) || decide (e.tag = .cache))) = true) ∧
+    (∀ s ∈ settingsStores, s.2.2.2 = true → (s.1, s.2.1, s.2.2.1) ∈ ctorSettingsSnapshots) ∧
+    (∀ t ∈ ctorSettingsSnapshots, (t.1, t.2.1, t.2.2, true) ∈ settingsStores) := by
+  decide +kernel
+
+/-- Parameters / buffers that `__init__` registers from an expression that may still BE the caller's tensor (no
+`.clone()` between the constructor argument and the registration; table `ctorArgAliases`, a flow-sensitive may-alias
+pass of translator G2p).  `load_state_dict` copies into parameters and buffers IN PLACE, so such a registration
+couples every model built from the same tensor (and the caller's tensor itself) — the defect class of the seeded
+change C18-9.  Audited entries: -/
+def auditedCtorArgAliases : List (Nat × Nat × String) := [
+  (cid_PointLatentVariable, aid_X, "by design: `X_init` IS the nn.Parameter the caller creates (documented GPLVM usage)"),
+  (cid_MAPLatentVariable, aid_X, "by design: `X_init` IS the nn.Parameter the caller creates"),
+  (cid_VariationalLatentVariable, aid_q_mu, "by design: nn.Parameter(X_init) of the caller's initialisation"),
+  -- KNOWN FINDING `argument-mutated:*` / `coupled:*:shared-args:*` on /repo HEAD c50236c; repaired by
+  -- fixes/C18-clone-constructor-tensors.patch (these entries are then unused: the statement is an inclusion)
+  (cid_Interval, aid_lower_bound, "DEFECT: torch.as_tensor(lower_bound).to(dtype) is the caller's tensor when it already has that dtype"),
+  (cid_Interval, aid_upper_bound, "DEFECT: the same"),
+  (cid_HorseshoePrior, aid_scale, "DEFECT: the caller's `scale` tensor is registered as the buffer"),
+  (cid_SmoothedBoxPrior, aid_a, "DEFECT: broadcast_all returns views of the caller's tensors"),
+  (cid_SmoothedBoxPrior, aid_b, "DEFECT: the same"),
+  (cid_WishartPrior, aid_nu, "DEFECT: the caller's `nu` tensor is registered as the buffer"),
+  (cid_InverseWishartPrior, aid_nu, "DEFECT: the same"),
+  (cid_InverseWishartPrior, aid_K, "DEFECT: the caller's `K` tensor is registered as the buffer"),
+  (cid_Kernel, aid_active_dims, "DEFECT: a tensor-valued `active_dims` is registered as the buffer without a copy")]
+
+/-- **Every parameter / buffer registered in a constructor owns its storage** (is cloned / newly computed on every
+path from the constructor arguments) — except the audited entries above. -/
+theorem ctor_args_not_aliased :
+    ∀ p ∈ ctorArgAliases, (auditedCtorArgAliases.any fun e => e.1 == p.1 && e.2.1 == p.2) = true := by
+  decide +kernel
+
+/-- Attribute NAMES that some method assigns on ANOTHER object (`new_kernel.batch_shape = …`): audited, exact. -/
+def auditedForeignWrites : List (Nat × String) := [
+  (aid_STAR, "setattr(module, <name>, …) in Module.initialize / hyperparameter loading: the public setter API"),
+  (aid__batch_shape, "Kernel.__getitem__ / expand_batch: on the NEW kernel they return"),
+  (aid__cached_kernel_inv_root, "InducingPointKernel.__deepcopy__: re-attaches the cache to the copy"),
+  (aid__cached_kernel_mat, "InducingPointKernel.__deepcopy__: re-attaches the cache to the copy"),
+  (aid__load_strict_shapes, "Module.load_strict_shapes(value): applied to every sub-module; only affects loading"),
+  (aid__memoize_cache, "utils/memoize: the memo table of the object passed in"),
+  (aid_batch_shape, "Kernel.expand_batch: on the deep-copied kernel it returns"),
+  (aid_distance_module, "legacy slot, always None"),
+  (aid_likelihood, "ExactGP.get_fantasy_model: on the deep-copied model it returns"),
+  (aid_mean_init_std, "VariationalStrategy.__call__: set to 0 and restored around the legacy (un-whitened) conversion"),
+  (aid_name_prefix, "PyroGP.__init__: through the likelihood's setter"),
+  (aid_num_data, "PyroGP.__init__: through the likelihood's setter"),
+  (aid_prediction_strategy, "ExactGP.get_fantasy_model: on the deep-copied model it returns"),
+  (aid_targets, "DirichletClassificationLikelihood.get_fantasy_likelihood: on the copy it returns"),
+  (aid_train_inputs, "ExactGP.get_fantasy_model: on the deep-copied model it returns")]
+
+theorem foreign_writes_audited : foreignWrites = auditedForeignWrites.map (·.1) := by
+  decide +kernel
+
+/-! ## 5c. What the methods READ (wave 3)
+
+`ownReads` (translator G2p) lists, per class, every `self.<attr>` load in every method other than `__init__` —
+`forward`, `__call__`, properties, helpers, hooks: a superset of what is reachable from `forward` / the objective, so
+no call graph has to be trusted.  Theorem `reads_classified`: for every Module class, every attribute that any method
+of its MRO can read from `self` is
+
+* (a) **persisted** — a parameter, persistent buffer, prior, constraint or child module registered by a class of the
+  MRO (the state dict / the module tree carries it),
+* (b) **constructor-determined** — assigned by a class of the MRO in `__init__` and by none of them anywhere else,
+* (c) an **audited mutable** — in the allow-list above (cache cleared on load and guarded on copy, scratch, config …),
+* (d) **code** — a method / property (whose own reads are in the table again) / class-level constant of the MRO, or
+  part of `torch.nn.Module`'s own API,
+* or one of the exact, reasoned exceptions `readExceptions`.
+
+This is hypothesis `hdep` of `predict_depends_only_on` for the real classes as far as `self.<attr>` reads go; reads
+of OTHER objects' attributes are reads of those objects' classes (same table), global settings are covered by
+`settings_snapshots_audited` + the settings phase of the correspondence, and the static read sets are cross-checked
+against a `__getattribute__` spy on real instances (dynamic ⊆ static) on every run. -/
+
+def rowAt (i : Nat) : Option ClassRow := classes[i]?
+
+/-- every attribute some method (other than `__init__`) of the classes `m` loads from `self` -/
+def readsL (m : List Nat) : List Nat := m.flatMap fun i => ownReads.getD i []
+def readsOf (c : ClassRow) : List Nat := readsL c.mro
+
+/-- registration kinds that persist: parameter (0), persistent buffer (1), prior (3), constraint (4), child (5);
+NOT non-persistent buffers (2) and added-loss-term slots (6) -/
+def persistedKinds : List Nat := [0, 1, 3, 4, 5]
+
+/-- names registered (persisting kinds) by the classes `m` -/
+def regNames (m : List Nat) : List Nat :=
+  (m.filterMap rowAt).flatMap fun r => (r.regs.filter fun g => persistedKinds.contains g.1).map (·.2.1)
+
+/-- (a) persisted: registered by a class of the MRO `m` (possibly through a name pattern, `covers`) -/
+def persistedRead (m : List Nat) (a : Nat) : Bool :=
+  (regNames m).contains a || covers.any fun p => (regNames m).contains p.1 && p.2 == a
+
+def initRead (m : List Nat) (a : Nat) : Bool := (m.filterMap rowAt).any (·.initAttrs.contains a)
+def mutRead (m : List Nat) (a : Nat) : Bool := (m.filterMap rowAt).any (·.mutAttrs.contains a)
+
+/-- (b) constructor-determined: assigned in `__init__` by a class of the MRO and nowhere else by any of them -/
+def ctorRead (m : List Nat) (a : Nat) : Bool := initRead m a && !mutRead m a
+
+/-- (c) audited mutable: an allow-list entry of a class of the MRO -/
+def auditedRead (m : List Nat) (a : Nat) : Bool := allowList.any fun e => m.contains e.cls && e.attr == a
+
+/-- `torch.nn.Module` / Python object protocol names read by package methods: the persisted stores themselves
+(`_parameters`, `_buffers`, `_modules`), API methods, and `training` (the mode: re-established by the caller,
+see ASSUMPTIONS).  The harness checks that each is an attribute of a plain `torch.nn.Module()` instance. -/
+def torchModuleNames : List Nat :=
+  [aid___class__, aid___dict__, aid___getattr__, aid__buffers, aid__modules, aid__parameters, aid__get_name,
+   aid_add_module, aid_apply, aid_named_buffers, aid_named_modules, aid_named_parameters, aid_parameters,
+   aid_register_buffer, aid_training]
+
+/-- (d) code: method / property / class-level name of a class of the MRO, or torch's own Module API -/
+def memberRead (m : List Nat) (a : Nat) : Bool :=
+  (m.flatMap fun i => ownMembers.getD i []).contains a || torchModuleNames.contains a
+
+structure ReadException where
+  cls : Nat
+  attr : Nat
+  why : String
+
+/-- Reads that are none of (a)–(d), each with its reason; inherited by subclasses of `cls`. -/
+def readExceptions : List ReadException := [
+  ⟨cid_Kernel, aid_kernels, "Kernel.__add__/__mul__ read it only under `isinstance(self, AdditiveKernel / ProductKernel)`, where it is a registered ModuleList"⟩,
+  ⟨cid_Prior, aid_base_dist, "torch TransformedDistribution state; its parameters are mirrored in the `_transformed_*` buffers and re-tied on load (Prior._load_from_state_dict)"⟩,
+  ⟨cid_Prior, aid__transform, "torch TransformedDistribution: constructor-determined transform list"⟩,
+  ⟨cid_Prior, aid__islazy, "property `islazy` of the mix-in gpytorch.distributions.Distribution; only MultivariateNormal assigns / uses it"⟩,
+  ⟨cid_MultivariateNormalPrior, aid_event_shape, "torch Distribution: constructor-determined shape"⟩,
+  ⟨cid_MultivariateNormalPrior, aid_scale_tril, "torch MultivariateNormal lazy property of the bufferized `_unbroadcasted_scale_tril`"⟩,
+  ⟨cid_SmoothedBoxPrior, aid__extended_shape, "torch Distribution method"⟩,
+  ⟨cid_UniformPrior, aid_high, "KNOWN FINDING not-persisted:UniformPrior.*: plain attribute of torch Uniform, not a buffer"⟩,
+  ⟨cid_UniformPrior, aid_low, "KNOWN FINDING not-persisted:UniformPrior.*: plain attribute of torch Uniform, not a buffer"⟩,
+  ⟨cid_MultiDeviceKernel, aid_device_ids, "torch DataParallel: constructor-determined"⟩,
+  ⟨cid_MultiDeviceKernel, aid_dim, "torch DataParallel: constructor-determined"⟩,
+  ⟨cid_MultiDeviceKernel, aid_module, "torch DataParallel: the wrapped base kernel (a registered child)"⟩,
+  ⟨cid_MultiDeviceKernel, aid_parallel_apply, "torch DataParallel method"⟩,
+  ⟨cid_MultiDeviceKernel, aid_replicate, "torch DataParallel method"⟩,
+  ⟨cid_MultiDeviceKernel, aid_scatter, "torch DataParallel method"⟩,
+  ⟨cid__MultitaskGaussianLikelihoodBase, aid_has_global_noise, "abstract base: assigned in __init__ of the concrete MultitaskGaussianLikelihood"⟩,
+  ⟨cid__MultitaskGaussianLikelihoodBase, aid_has_task_noise, "abstract base: assigned in __init__ of the concrete MultitaskGaussianLikelihood"⟩,
+  ⟨cid__MultitaskGaussianLikelihoodBase, aid_noise, "abstract base: property of the concrete MultitaskGaussianLikelihood"⟩,
+  ⟨cid__MultitaskGaussianLikelihoodBase, aid_raw_task_noises, "abstract base: parameter registered by the concrete MultitaskGaussianLikelihood"⟩,
+  ⟨cid__MultitaskGaussianLikelihoodBase, aid_raw_task_noises_constraint, "abstract base: constraint registered by the concrete MultitaskGaussianLikelihood"⟩,
+  ⟨cid__MultitaskGaussianLikelihoodBase, aid_task_noise_covar_factor, "abstract base: parameter registered by the concrete MultitaskGaussianLikelihood"⟩
+]
+
+def exceptedRead (m : List Nat) (a : Nat) : Bool := readExceptions.any fun e => m.contains e.cls && e.attr == a
+
+/-- (a) ∨ (b) ∨ (c) ∨ (d) -/
+def classifiedRead (m : List Nat) (a : Nat) : Bool :=
+  persistedRead m a || ctorRead m a || auditedRead m a || memberRead m a
+
+/-- the table is indexed by class id (justifies `rowAt`), one read / member row per class -/
+theorem class_table_indexed :
+    (classes.map (·.id)) = List.range classes.length ∧ ownReads.length = classes.length ∧
+    ownMembers.length = classes.length := by
+  decide +kernel
+
+/-- the MRO of every class of an MRO is contained in it (the class graph is closed), and every MRO entry is a row -/
+theorem mro_closed :
+    ∀ c ∈ classes, ∀ b ∈ c.mro, ((rowAt b).any fun r => r.mro.all c.mro.contains) = true := by
+  decide +kernel
+
+/-- The finite core (`decide +kernel` over the regenerated table): every attribute a class's OWN methods read is
+classified relative to that class's MRO, or excepted. -/
+theorem own_reads_classified :
+    ∀ c ∈ classes, ∀ a ∈ ownReads.getD c.id [], (classifiedRead c.mro a || exceptedRead c.mro a) = true := by
+  decide +kernel
+
+/-- The classification is monotone in the MRO: what is classified for a base class stays classified for every
+subclass — a subclass that starts mutating a constructor-determined attribute of its base moves it to (c) by
+`mutable_attrs_audited`. -/
+theorem classified_mono {m m' : List Nat} (a : Nat) (hsub : ∀ i ∈ m, i ∈ m')
+    (h : (classifiedRead m a || exceptedRead m a) = true) :
+    (classifiedRead m' a || exceptedRead m' a) = true := by
+  simp only [classifiedRead, Bool.or_eq_true] at h ⊢
+  rcases h with (((hp | hc) | ha) | hm) | he
+  · -- (a)
+    refine Or.inl (Or.inl (Or.inl (Or.inl ?_)))
+    simp only [persistedRead, Bool.or_eq_true] at hp ⊢
+    rcases hp with hp | hp
+    · exact Or.inl (contains_flatMap_filterMap_mono rowAt _ a hsub hp)
+    · refine Or.inr ?_
+      simp only [List.any_eq_true, Bool.and_eq_true] at hp ⊢
+      obtain ⟨p, hpm, hreg, hpa⟩ := hp
+      exact ⟨p, hpm, contains_flatMap_filterMap_mono rowAt _ p.1 hsub hreg, hpa⟩
+  · -- (b): still constructor-determined, or some class of the larger MRO mutates it — then it is audited
+    simp only [ctorRead, Bool.and_eq_true] at hc
+    have hinit : initRead m' a = true := any_filterMap_mono rowAt _ hsub hc.1
+    by_cases hmut : mutRead m' a = true
+    · refine Or.inl (Or.inl (Or.inr ?_))
+      simp only [mutRead, List.any_eq_true, List.mem_filterMap] at hmut
+      obtain ⟨r, ⟨i, hi, hri⟩, hra⟩ := hmut
+      have hrmem : r ∈ classes := List.mem_of_getElem? hri
+      have hid : r.id = i := by
+        have h1 : (classes.map (·.id))[i]? = some r.id := by
+          rw [List.getElem?_map]; simp only [rowAt] at hri; rw [hri]; rfl
+        rw [class_table_indexed.1] at h1
+        have h2 := List.getElem?_range (n := classes.length) (i := i)
+        by_cases hlt : i < classes.length
+        · rw [List.getElem?_range hlt] at h1; exact (Option.some.inj h1).symm
+        · rw [List.getElem?_eq_none (by simpa using Nat.le_of_not_lt hlt)] at h1; cases h1
+      have haud := mutable_attrs_audited r hrmem a (by simpa using hra)
+      simp only [auditedRead, List.any_eq_true, Bool.and_eq_true, beq_iff_eq] at haud ⊢
+      obtain ⟨e, he, hcls, hattr⟩ := haud
+      exact ⟨e, he, by simpa [hcls, hid] using hi, hattr⟩
+    · refine Or.inl (Or.inl (Or.inl (Or.inr ?_)))
+      simp only [ctorRead, hinit, Bool.true_and, Bool.not_eq_true'] 
+      simpa using hmut
+  · -- (c)
+    exact Or.inl (Or.inl (Or.inr (any_contains_mono allowList (·.cls) (fun e => e.attr == a) hsub ha)))
+  · -- (d)
+    refine Or.inl (Or.inr ?_)
+    simp only [memberRead, Bool.or_eq_true] at hm ⊢
+    exact hm.imp (contains_flatMap_mono _ a hsub) id
+  · exact Or.inr (any_contains_mono readExceptions (·.cls) (fun e => e.attr == a) hsub he)
+
+/-- **Every attribute any method of a Module class reads from `self` is persisted, constructor-determined, an
+audited mutable, or code** — with the exact exceptions of `readExceptions`; for every class of the table and every
+method of every class of its MRO. -/
+theorem reads_classified :
+    ∀ c ∈ classes, ∀ a ∈ readsOf c, (classifiedRead c.mro a || exceptedRead c.mro a) = true := by
+  intro c hc a ha
+  simp only [readsOf, readsL, List.mem_flatMap] at ha
+  obtain ⟨b, hb, hab⟩ := ha
+  have hcl := mro_closed c hc b hb
+  cases hrb : rowAt b with
+  | none => rw [hrb] at hcl; simp at hcl
+  | some r =>
+    have hrmem : r ∈ classes := List.mem_of_getElem? hrb
+    have hsub : ∀ i ∈ r.mro, i ∈ c.mro := by
+      rw [hrb] at hcl
+      simpa using hcl
+    have hid : r.id = b := by
+      have h1 : (classes.map (·.id))[b]? = some r.id := by
+        rw [List.getElem?_map]; simp only [rowAt] at hrb; rw [hrb]; rfl
+      rw [class_table_indexed.1] at h1
+      by_cases hlt : b < classes.length
+      · rw [List.getElem?_range hlt] at h1; exact (Option.some.inj h1).symm
+      · rw [List.getElem?_eq_none (by simpa using Nat.le_of_not_lt hlt)] at h1; cases h1
+    exact classified_mono a hsub (own_reads_classified r hrmem a (by rw [hid]; exact hab))
+
+/-- … and the exception list is exact: each entry is really read by its class and is none of (a)–(d) there. -/
+theorem readExceptions_exact :
+    ∀ e ∈ readExceptions, ((rowAt e.cls).any fun c =>
+      (ownReads.getD e.cls []).contains e.attr && !classifiedRead c.mro e.attr) = true := by
+  decide +kernel
+
+/-- Non-vacuity of the read-side statements on the current tree: the tables are populated, every category is
+inhabited, and `classified_mono` is applied to a real base-class / subclass pair (what `Kernel`'s methods read is
+classified for `Kernel` alone and hence inside the longer MRO of `RBFKernel`). -/
+example : ((classes.map fun c => (readsOf c).length).sum ≥ 100 ∧ attrWriters ≠ [] ∧ settingsStores ≠ [] ∧
+    settingsReads ≠ []) ∧
+    (persistedRead [cid_Kernel, cid_Module] aid_raw_lengthscale = true ∧
+     ctorRead [cid_Kernel, cid_Module] aid_ard_num_dims = true ∧
+     auditedRead [cid_Kernel, cid_Module] aid__batch_shape = true ∧
+     memberRead [cid_Kernel, cid_Module] aid_forward = true ∧
+     exceptedRead [cid_Kernel, cid_Module] aid_kernels = true ∧
+     classifiedRead [cid_Kernel, cid_Module] aid_kernels = false) := by
+  decide +kernel
+
+example : (classifiedRead [cid_RBFKernel__kernels_rbf_kernel, cid_Kernel, cid_Module] aid_kernels ||
+    exceptedRead [cid_RBFKernel__kernels_rbf_kernel, cid_Kernel, cid_Module] aid_kernels) = true :=
+  classified_mono (m := [cid_Kernel, cid_Module]) aid_kernels (by decide) (by decide +kernel)
+
+/-- Methods that read `self` under a COMPUTED name (no static read set): audited, exact.  The dynamic cross-check
+exempts exactly these frames. -/
+def auditedDynReads : List (Nat × Nat) := [
+  (cid_GridKernel, aid_grid),                    -- getattr(self, f"grid_{i}"): the registered `grid_#` buffers
+  (cid_Kernel, aid___getitem__),                 -- copies every parameter / buffer of the kernel by name
+  (cid_Kernel, aid_expand_batch),                -- the same
+  (cid_Module, aid__get_module_and_name),        -- dotted-name resolution for initialize / constraints
+  (cid_Module, aid_constraint_for_parameter_name), -- walks `a.b.c` down the module tree (`base_module = self; …__getattr__(name)`)
+  (cid_Module, aid_initialize),                  -- the public setter API
+  (cid_Module, aid_register_prior),              -- hasattr(self, <param name>) check at registration
+  (cid_Prior, aid___setattr__),                  -- hasattr(self, name) for the `_transformed_*` mirror
+  (cid__VariationalStrategy, aid___getstate__)   -- self.__dict__.copy()
+]
+
+theorem dynamic_reads_audited : dynReads = auditedDynReads := by
+  decide +kernel
+
 /-- **persistence_completeness_partial** — the proved part of `persistence_completeness` (stated in the comment
-above; the full statement is a per-class fact about attribute *reads* and is enumerated dynamically, not proved):
-every attribute that any Module class *writes* outside `__init__` is classified in the audited allow-list, and
-every one classified as a cache is cleared by `load_state_dict` and guarded on copy. -/
+above): (1) every attribute that any Module class *writes* outside `__init__` is classified in the audited allow-list,
+(2) every one classified as a cache is cleared by `load_state_dict` and (3) guarded on copy; since wave 3 also the
+READ side — (4) every attribute that any method of a Module class loads from `self` is persisted,
+constructor-determined, an audited mutable or code (`reads_classified`, section 5c; exceptions exact), (5) `config`
+attributes are written by setters only and (6) no attribute keeps a snapshot of a global setting taken during use.
+Still NOT proved (hence `_partial`): that the Python AST is the behaviour (computed `getattr` in the audited
+`dynReads` methods, C extensions), that constructor-determined values derive from the constructor ARGUMENTS only
+(`ctorSettingsSnapshots` lists the known counter-examples), reads of state held by non-Module helper objects
+(prediction strategies, distributions — reachable only through audited cache attributes) and of process-global
+state other than `gpytorch.settings`; these stay with the dynamic enumeration of harness/props/c18.py. -/
 theorem persistence_completeness_partial :
     (∀ c ∈ classes, ∀ a ∈ c.mutAttrs, (allowList.any fun e => e.cls == c.id && e.attr == a) = true) ∧
     (∀ e ∈ allowList, e.tag = .cache → ((rowOf e.cls).any fun r => r.gp && r.clears.contains e.attr) = true) ∧
-    (∀ e ∈ allowList, e.tag = .cache → (e.cls, e.attr) ∉ knownUnguarded → e.guard ≠ .none) :=
-  ⟨mutable_attrs_audited, caches_cleared_on_load.2.2.2, by decide +kernel⟩
+    (∀ e ∈ allowList, e.tag = .cache → (e.cls, e.attr) ∉ knownUnguarded → e.guard ≠ .none) ∧
+    (∀ c ∈ classes, ∀ a ∈ readsOf c, (classifiedRead c.mro a || exceptedRead c.mro a) = true) ∧
+    (∀ e ∈ allowList, e.tag = .config → ∀ w ∈ attrWriters, w.1 = e.cls → w.2.1 = e.attr →
+      (w.2.2.2 = wk_setter ∨ (w.1, w.2.1, w.2.2.1) ∈ configApiWriters)) ∧
+    (∀ s ∈ settingsStores, s.2.2.2 = false →
+      (allowList.any fun e => e.cls == s.1 && e.attr == s.2.1 &&
+        (decide (e.tag = .cacheTag) || decide (e.tag = .cache))) = true) :=
+  ⟨mutable_attrs_audited, caches_cleared_on_load.2.2.2, by decide +kernel, reads_classified,
+   config_attrs_written_only_by_setters, settings_snapshots_audited.1⟩
 
 /-! ## 6. Non-vacuity: a KISS-GP-shaped tree, a different fresh initialisation, stale caches -/
 
